@@ -3,6 +3,7 @@ from ..cfg import cfg_of
 from ..defuse import du_of, walk, peel, callee_name, fmt
 from ..conds import lits_of
 from ..callgraph import cg_of
+from ..roles import roles_of
 from ..common import arg_term, contains_call, call_named, whole_iteration
 
 TEXT = ("Dominance and provenance rules on resolve_as and on every site that re-asserts an object read back from "
@@ -22,6 +23,7 @@ REASSERT = ("update_object", "digest_object", "datastorage::DataStorage::write_o
 
 
 def run(facts, res):
+    R = roles_of(facts)
     res.rule("V1", "resolve_as mutates state only under leafs.contains(chosen) && leafs.len() > 1")
     res.rule("V2", "the re-asserted object is the view reconstruction at the chosen revision")
     res.rule("V3", "every leaf other than the winner is sealed with new_resolved(leaf), parent = leaf, staged")
@@ -72,7 +74,7 @@ def run(facts, res):
         obj = arg_term(b, s.term, 2, 30)
         ok = False
         for x in walk(obj):
-            if x[0] == "call" and callee_name(x) == "read_object_at_revision" and len(x[2]) >= 4:
+            if x[0] == "call" and callee_name(x) == R.name("recon") and len(x[2]) >= 4:
                 if _from_param(x[2][3], "winner") and contains_call(x[2][3], "revision::Revision::from"):
                     ok = True
         res.instance("V2", "update_object(uuid, %s): derives from read_object_at_revision(.., chosen): %s" % (fmt(obj, 5), ok), s.loc())
@@ -84,7 +86,7 @@ def run(facts, res):
     # leaves passes update_object or delete_object (for arrays in conflict the visible value is the *merge* of all leaves;
     # it exists as a revision only once it has been re-asserted, also when the chosen leaf already is the winner)
     cfg = cfg_of(b)
-    recon = [s for s in cg.sites[b.path] if s.callee is not None and s.callee.name == "read_object_at_revision"]
+    recon = [s for s in cg.sites[b.path] if s.callee is not None and s.callee.name == R.name("recon")]
     seals = [s for s in cg.sites[b.path] if s.callee is not None and s.callee.name == "add" and "RevisionTree" in s.callee.path]
     reassert = {s.block for s in cg.sites[b.path] if s.callee is not None and s.callee.name in ("update_object", "delete_object")}
     from ..conds import all_edge_lits
@@ -135,7 +137,7 @@ def run(facts, res):
     # ------------------------------------------------------------------ V4 (crate-wide)
     n4 = 0
     for body in facts.repo_bodies():
-        if body.path.startswith("datastorage::") or body.path.endswith("read_object_at_revision"):
+        if body.path.startswith("datastorage::") or body.path == R.path("recon"):
             continue
         for s in cg.sites[body.path]:
             c = s.callee
@@ -144,12 +146,12 @@ def run(facts, res):
             for i in range(len(s.term.args)):
                 at = arg_term(body, s.term, i, 30)
                 reads = [x for x in walk(at) if x[0] == "call" and
-                         (callee_name(x) == "read_object_at_revision" or x[1] == "datastorage::DataStorage::read_object")]
+                         (callee_name(x) == R.name("recon") or x[1] == "datastorage::DataStorage::read_object")]
                 if not reads:
                     continue
                 n4 += 1
                 for rd in reads:
-                    rev = rd[2][3] if callee_name(rd) == "read_object_at_revision" else rd[2][1]
+                    rev = rd[2][3] if callee_name(rd) == R.name("recon") else rd[2][1]
                     rvars = {v[1] for v in walk(rev) if v[0] == "var"}
                     guard = False
                     for l in lits_of(body, s.block, facts):
